@@ -79,7 +79,7 @@ def shards(tier, seed):
     for j in range(2 if q else 4):
         out.append({"kind": "sync", "n": 150 if q else 2000, "j": j})
     for j in range(8 if q else 16):
-        out.append({"kind": "thr", "n": 5 if q else 60, "j": j, "maxm": 600 if q else 5000})
+        out.append({"kind": "thr", "n": 5 if q else 30, "j": j, "maxm": 600 if q else 5000})
     return out
 
 
